@@ -8,8 +8,13 @@ import (
 
 	ipfslog "berty.tech/go-ipfs-log"
 	"berty.tech/go-ipfs-log/entry"
+	logio "berty.tech/go-ipfs-log/io"
 	orbitdb "berty.tech/go-orbit-db"
 	"berty.tech/go-orbit-db/accesscontroller"
+	"berty.tech/go-orbit-db/accesscontroller/simple"
+	"berty.tech/go-orbit-db/address"
+	"berty.tech/go-orbit-db/stores/eventlogstore"
+	"github.com/libp2p/go-libp2p/p2p/host/eventbus"
 	"berty.tech/go-orbit-db/iface"
 	cid "github.com/ipfs/go-cid"
 	"verifmc/sim"
@@ -35,6 +40,7 @@ type AdvOptions struct {
 	Writers    []string // subset of {"A","B"}, or {"*"}, or {} (creator default)
 	Controller string   // "ipfs" (default), "simple", "orbitdb"
 	VictimReplicates bool
+	SimpleDirect     bool // replicas built by the store constructor with an explicit simple access controller
 }
 
 func NewAdv(o AdvOptions) (*Adv, error) {
@@ -96,7 +102,44 @@ func NewAdv(o AdvOptions) (*Adv, error) {
 	if w.SV, err = w.V.DB.Open(bg, w.Addr, &orbitdb.CreateDBOptions{Replicate: boolp(true)}); err != nil {
 		return nil, fmt.Errorf("open V: %w", err)
 	}
+	if o.SimpleDirect {
+		// the database keeps its address, but every replica is rebuilt through the store constructor with an
+		// explicit simple access controller carrying the write list (the only way to reach that controller:
+		// it cannot be resolved from a manifest)
+		for _, x := range []struct {
+			inst *sim.Instance
+			st   *iface.Store
+		}{{w.A, &w.SA}, {w.B, &w.SB}, {w.V, &w.SV}} {
+			_ = (*x.st).Close()
+			ns, err := w.SimpleStore(x.inst)
+			if err != nil {
+				return nil, err
+			}
+			*x.st = ns
+		}
+	}
 	return w, sim.Quiesce()
+}
+
+// SimpleStore builds an event-log store for the database on inst with a simple access controller.
+func (w *Adv) SimpleStore(inst *sim.Instance) (iface.Store, error) {
+	params := accesscontroller.NewSimpleManifestParams("simple", map[string][]string{"write": w.WriteList})
+	acs, err := simple.NewSimpleAccessController(bg, nil, params)
+	if err != nil {
+		return nil, err
+	}
+	addr, err := address.Parse(w.Addr)
+	if err != nil {
+		return nil, err
+	}
+	ds, err := inst.Cache.Load(sim.Directory, addr)
+	if err != nil {
+		return nil, err
+	}
+	return eventlogstore.NewOrbitDBEventLogStore(inst.Peer.API(), inst.DB.Identity(), addr, &iface.NewStoreOptions{
+		EventBus: eventbus.NewBus(), AccessController: acs, Cache: ds, CacheDestroy: func() error { return nil },
+		Replicate: boolp(false), IO: logio.CBOR(),
+	})
 }
 
 func (w *Adv) Close() {
